@@ -18,7 +18,7 @@ LEVEL = "exploration"
 TECHNIQUE = ("runtime monitoring: call-log exactly-once monitor + injective result encoding checked "
              "against a reference grid model, under real pools and adversarial completion orders")
 RULE = ("seeded grids (1-5 args x 1-4 values, int/float/str, three spellings, 0-3 constants, scalar/"
-        "tuple/array/list results) x strategy (sequential, shuffle True/int, held-task submit/apply_async "
+        "tuple/array/list results) x strategy (sequential, shuffle True/int incl. the seeds 0 and 1, held-task submit/apply_async "
         "executors completing in every permutation, ThreadPool, ProcessPool, multiprocessing.Pool, loky "
         "parallel/num_workers) x split/flat; a case is distinct by (grid shape, value types, spelling, "
         "strategy, completion order observed in the call log, split, flat, kind) and non-trivial when "
